@@ -403,10 +403,19 @@ fn worker(prop: &props::PropDef, args: &Args) -> i32 {
         }
     }));
     let finished = std::sync::Arc::new(std::sync::atomic::AtomicBool::new(false));
-    if matches!(prop.id, "C01" | "C12" | "C20") {
-        // stall monitor: no case finishing anywhere for STALL seconds = a call does not return
+    // stall monitor: no case finishing anywhere for STALL seconds = a call does not return.
+    // C01, C12, C20 (whose statements cover termination) use 15 s; the checks whose phases
+    // are all in-process enumerations / random searches use 40 s and report a stall as
+    // "could not decide" (exit 2). C04, C13, C19 spend long stretches in compilers and
+    // child processes and rely on the supervisor's watchdog instead.
+    let stall_default = match prop.id {
+        "C01" | "C12" | "C20" => 15,
+        "C04" | "C13" | "C19" => 0,
+        _ => 40,
+    };
+    if stall_default > 0 {
         let fin = finished.clone();
-        let stall = vlib::engine::env_u64("VERIF_STALL_S", 15);
+        let stall = vlib::engine::env_u64("VERIF_STALL_S", stall_default);
         std::thread::spawn(move || {
             let mut last = (vlib::engine::PROGRESS.load(std::sync::atomic::Ordering::Relaxed), Instant::now());
             loop {
